@@ -433,4 +433,37 @@ func runC15(p *P, r *R) {
 	r.ob("R15.4", "push: writes the slot streams[tail%capacity]", p.pos(push.Pos()), idxOK(push, "streamPool.tail"), true, "")
 	// R15.6 making a stream reusable never drops buffers it still owns (shared with C09 R09.12)
 	borrow(p, r, "C09", runC09, map[string]string{"R09.12": "R15.6"}, nil)
+	c15HandsOff(p, r)
+}
+
+// c15HandsOff (R15.7): once a stream has been pushed into the pool another caller may pop it at any moment, so the
+// returning caller must be finished with it: on the edge where the push succeeded nothing touches the stream any
+// more (all clean-up — reset, release and reuse of the read buffer — happens before the push). Otherwise the stream
+// is in effect held by two callers and carries state of its earlier use.
+func c15HandsOff(p *P, r *R) {
+	n := 0
+	for _, f := range p.fnList {
+		for _, ci := range findInstrs(f, p.mCall("(*streamPool).push")) {
+			c := ci.(*ssa.Call)
+			if len(c.Call.Args) < 2 {
+				continue
+			}
+			st := c.Call.Args[1]
+			n++
+			okp, res := p.findBadPath(f, []Point{pointOf(c)}, pathOpts{
+				Bad: func(in ssa.Instruction) bool {
+					if in == ssa.Instruction(c) {
+						return false
+					}
+					if _, isRet := in.(*ssa.Return); isRet {
+						return false
+					}
+					return usesValue(in, st)
+				},
+				EdgeOK: func(b *ssa.BasicBlock, i int) bool { return !edgeKnownNonNil(b, i, c) }, // the push failed: not pooled, still ours
+			})
+			r.ob("R15.7", p.fname(f)+": a stream is not touched any more once it was pushed into the pool", p.ipos(c), okp, true, "%s", p.pathString(res))
+		}
+	}
+	r.count("R15.7", "pool push sites", n, 1)
 }
